@@ -240,6 +240,8 @@ def _cut_loop(ver, eng, rep, c, node, st: State, fi, k, invs, desc):
             rs = z3.simplify(r)
             if any(z3.eq(rs, z3.simplify(e)) for e in extra_refs):
                 continue
+            if any(hs.must(rs == e) for e in extra_refs):
+                continue  # the same container reached through a syntactically different (post-havoc) term
             # allocated inside the iteration? then it is not loop state
             if hs.must(rs >= hs.heap.next_ref):
                 continue
